@@ -28,6 +28,8 @@ pub enum Op {
     BatchAppendAzks(usize, u64),
     /// batch_set [node0 content c, node1 content c]
     BatchNodes(u64),
+    /// batch_set [epoch record e, node0 content e] — the epoch record NOT last in the batch
+    BatchAzksFirst(u64),
     Begin,
     Commit,
     Rollback,
@@ -41,6 +43,7 @@ pub fn show_op(op: &Op) -> String {
         Op::Rewrite(u, e) => format!("set({} rewrite @{e})", USERS[*u]),
         Op::BatchAppendAzks(u, e) => format!("batch_set([{} new state @{e}, azks e{e}])", USERS[*u]),
         Op::BatchNodes(c) => format!("batch_set([node0 e{c}, node1 e{c}])"),
+        Op::BatchAzksFirst(e) => format!("batch_set([azks e{e}, node0 e{e}])"),
         Op::Begin => "begin".into(),
         Op::Commit => "commit".into(),
         Op::Rollback => "rollback".into(),
@@ -81,6 +84,9 @@ pub fn alphabet(u: &Universe) -> Vec<Op> {
             ops.push(Op::BatchNodes(c));
         }
     }
+    if let Some(&e) = u.azks_epochs.last() {
+        ops.push(Op::BatchAzksFirst(e));
+    }
     ops
 }
 
@@ -109,6 +115,7 @@ pub fn records_of(op: &Op, m: &StoreModel) -> Option<Vec<DbRecord>> {
             Some(v)
         }
         Op::BatchNodes(c) => Some(vec![node_rec(0, *c), node_rec(1, *c)]),
+        Op::BatchAzksFirst(e) => Some(vec![azks_rec(*e), node_rec(0, *e)]),
         _ => Some(vec![]),
     }
 }
